@@ -555,6 +555,57 @@ def rewrite_call_through(text, fn_name, via, cnt, where):
     return text
 
 
+def model_leftovers(text, cnt):
+    """R6b, applied last: what the unit's own rules left of constructs Verus ACCEPTS without giving them a meaning gets the prelude's model, so that a harmless
+    re-spelling does not turn into "any value":  String::from(x) -> prelude_string_from(x) (same characters; x must be a &str - anything else no longer type-checks: INFRA)"""
+    toks = lex(text)
+    out, k, n, hits, hits2, hits3 = [], 0, len(toks), 0, 0, 0
+    code = [q for q, t in enumerate(toks) if t.kind in CODE]
+    pos = {q: i for i, q in enumerate(code)}
+    while k < n:
+        t = toks[k]
+        if t.kind == "id" and t.text == "String" and k in pos:
+            i = pos[k]
+            nxt = [toks[code[i + d]].text if i + d < len(code) else "" for d in range(1, 5)]
+            prev = toks[code[i - 1]].text if i > 0 else ""
+            if nxt[:4] == [":", ":", "from", "("] and prev not in (":", "."):
+                out.append(Tok("id", "prelude_string_from", 0, 0))
+                k = code[i + 4]   # continue at `(`
+                hits += 1
+                continue
+        # format!("text without placeholders") is that text
+        if t.kind == "id" and t.text == "format" and k in pos:
+            i = pos[k]
+            nx = [toks[code[i + d]] if i + d < len(code) else None for d in range(1, 5)]
+            if all(nx) and nx[0].text == "!" and nx[1].text == "(" and nx[2].kind == "str" and nx[3].text == ")" and "{" not in nx[2].text:
+                out.append(Tok("id", "prelude_string_from(%s)" % nx[2].text, 0, 0))
+                k = code[i + 4] + 1
+                hits2 += 1
+                continue
+        # `<postfix expr> == None` / `!= None` is is_none() / is_some()
+        if t.kind == "p" and t.text in ("=", "!") and k in pos:
+            i = pos[k]
+            n1 = toks[code[i + 1]] if i + 1 < len(code) else None
+            n2 = toks[code[i + 2]] if i + 2 < len(code) else None
+            pv = toks[code[i - 1]] if i > 0 else None
+            if (n1 is not None and n1.text == "=" and n1.start == t.start + 1 and n2 is not None and n2.kind == "id" and n2.text == "None"
+                    and pv is not None and (pv.kind == "id" or pv.text in (")", "]"))):
+                while out and out[-1].kind not in CODE: out.pop()
+                out.append(Tok("p", ".is_none()" if t.text == "=" else ".is_some()", 0, 0))
+                k = code[i + 2] + 1
+                hits3 += 1
+                continue
+        out.append(t)
+        k += 1
+    if hits:
+        cnt.add("R6b.String::from => prelude_string_from", hits)
+    if hits2:
+        cnt.add("R6b.format!(literal) => prelude_string_from(literal)", hits2)
+    if hits3:
+        cnt.add("R6b.`== None` / `!= None` => is_none() / is_some()", hits3)
+    return toks_text(out)
+
+
 def rewrite_types(text, cnt):
     """R2/R3 on field types: RwLock<T> / Mutex<T> -> T ; AtomicUsize -> usize ; AtomicBool -> bool"""
     toks = lex(text)
@@ -1187,6 +1238,7 @@ class Unit:
             self.emit(bl, owner_name, aglabel if aghost else None, "ghost" if aghost else "body", src="%s:%d" % (rel, src_line + q))
         self.emit("}", owner_name, None, "glue")
         self.functions.append(dict(path=name, file=rel, line=src_line, external=False, labels=labels, mutself=False, body=new_expr))
+        new_expr = model_leftovers(new_expr, self.counts)
         self.diffs[name] = "".join(difflib.unified_diff(expr.splitlines(True), new_expr.splitlines(True),
                                                         "%s:arm Request::%s (source)" % (rel, variant), "extracted", n=0))
         self.counts.add("items.arm")
@@ -1507,6 +1559,8 @@ class Unit:
                 label = m.group(1).strip() or None
                 if label and label not in labels: labels.append(label)
             self.emit(ln, owner_name, label, "spec", src="%s:%d" % (os.path.basename(self.vc_path), lno))
+        if not external:
+            new_body = model_leftovers(new_body, self.counts)
         # body, line by line, with source line numbers where they can be recovered
         body_first_line = s.line_of(toks[it["body_open"]].start)
         ghost = False; glabel = None
